@@ -3,6 +3,7 @@ C03 — the approx. marker and digit truncation never misstate a value.
 -/
 import FendModel.Model.Root
 import FendModel.Proofs.Format
+import FendModel.Proofs.FormatLayout
 import Mathlib.Tactic.Ring
 import Mathlib.Tactic.Linarith
 import Mathlib.Tactic.FieldSimp
@@ -47,6 +48,24 @@ theorem truncation_bound (b den r n : Nat) (hb : 2 ≤ b) (hr : r < den) :
     · intro h
       have : (r : Rat) / den - shown = 0 := by rw [key, h]; simp
       linarith
+
+/-- **the text of `x to n dp`** (and of any terminating expansion): the formatter's loop, started on the fractional remainder
+`r`, stops at the first index `k` where the remainder vanishes or `k = n`; what it returns is the integer part followed — when
+a non-zero digit was produced — by the separator and the first `k` long-division digits without trailing zeros, and its
+`exact` result is `remainder at k = 0`.  Together with `truncation_bound` (about exactly those digits) and `stripZ_value`
+(dropping trailing zeros keeps the value) the printed text is the truncation of the value, marked exactly when digits were
+dropped; a value that prints as zero loses its minus sign. -/
+theorem dp_text (b den r : Nat) (md : MaxDigits) (hmd : ∀ m, md ≠ .ign m) (sep : Char) (intTxt : List Char) (neg intZero : Bool)
+    (k : Nat) (hbefore : ∀ j, j < k → remAt b den r j ≠ 0 ∧ md ≠ .dp j) (hstop : remAt b den r k = 0 ∨ md = .dp k)
+    (fuel : Nat) (hfuel : k + 1 ≤ fuel) :
+    nonrecLoop b den md sep intTxt neg intZero fuel r 0 0 false [] =
+      (if startedOf (digitsFrom b den r k) then neg else neg && !intZero,
+       renderDigits intTxt sep (digitsFrom b den r k), remAt b den r k == 0) :=
+  nonrec_text b den r md hmd sep intTxt neg intZero k hbefore hstop fuel hfuel
+
+theorem shown_digits_value (b : Nat) (hb : 2 ≤ b) (ds : List Nat) :
+    ((valDigits b (stripZ ds) : Nat) : Rat) / (b : Rat) ^ (stripZ ds).length = ((valDigits b ds : Nat) : Rat) / (b : Rat) ^ ds.length :=
+  stripZ_value b hb ds
 
 /-! ### integer roots -/
 
